@@ -283,45 +283,103 @@ def rule_r3(rep, repo):
                        "default cut-off" if not extra else f"passes {extra}")
 
 
+def _bind_segment_loop(vg, loop):
+    """Bind the targets of a loop over sectors to value graphs in the iteration number K:
+    range(n) -> K; enumerate(X) -> (K, X[K]); X -> X[K]; zip(A, B, ..) element-wise, where
+    pairwise(P) -> (P[K], P[K+1]), P[:-1] -> P[K], P[1:] -> P[K+1]."""
+    K = ("sym", "K")
+    K1 = e5.mk_ac("+", [K, ("const", "1")])
+
+    def elem(e):
+        if isinstance(e, ast.Call) and norm(e.func) in ("itertools.pairwise", "pairwise") and len(e.args) == 1:
+            p_ = vg.ev(e.args[0])
+            return ("tuple", (("sub", p_, K), ("sub", p_, K1)))
+        if isinstance(e, ast.Subscript) and isinstance(e.slice, ast.Slice) and e.slice.step is None:
+            lo, hi = e.slice.lower, e.slice.upper
+            if lo is None and hi is not None and norm(hi) == "-1":
+                return ("sub", vg.ev(e.value), K)
+            if hi is None and lo is not None and norm(lo) == "1":
+                return ("sub", vg.ev(e.value), K1)
+            raise AnalysisError(f"unrecognised idiom: sector loop over the slice `{norm(e)}`")
+        if isinstance(e, ast.Call) and norm(e.func) == "range" and len(e.args) == 1:
+            return K
+        if isinstance(e, ast.Call):
+            raise AnalysisError(f"unrecognised idiom: sector loop over `{norm(e)[:50]}`")
+        return ("sub", vg.ev(e), K)
+    it = loop.iter
+    if isinstance(it, ast.Call) and norm(it.func) == "enumerate" and len(it.args) == 1:
+        v = ("tuple", (K, elem(it.args[0])))
+    elif isinstance(it, ast.Call) and norm(it.func) == "zip":
+        v = ("tuple", tuple(elem(a_) for a_ in it.args))
+    else:
+        v = elem(it)
+    vg.bind(loop.target, v)
+
+
 def rule_r4(rep, repo):
-    """Segment loops of the two multi-sector routes."""
+    """Segment loops of the two multi-sector routes (value graphs in the iteration number K): in both,
+    iteration K must update exactly weights[pt_ind[K]:pt_ind[K+1]] with the cell function of atom
+    select[K]."""
     fa = repo.method("BeckeWeights", "generate_weights")
     fc = repo.method("BeckeWeights", "compute_weights")
+    K = ("sym", "K")
+    K1 = e5.mk_ac("+", [K, ("const", "1")])
 
-    def seg(fn):
-        for n in ast.walk(fn.node):
-            if isinstance(n, ast.For):
-                body_txt = " ".join(norm(s) for s in n.body)
-                if "pt_ind[" in body_txt:
-                    return n
-        return None
-    la, lc = seg(fa), seg(fc)
-    if la is None or lc is None:
-        raise AnalysisError("unrecognised idiom: segment loop over pt_ind not found")
+    def contains(t, x):
+        if t == x:
+            return True
+        return isinstance(t, tuple) and any(contains(y, x) for y in t)
 
-    def shape(loop):
-        v = norm(loop.target)
-        it = norm(loop.iter)
-        txt = " ".join(norm(s) for s in loop.body)
-        bounds_by = "position" if f"pt_ind[{v}]" in txt else "?"
-        if it in ("range(sectors)", "range(len(select))"):
-            atom = "select[position]" if f"select[{v}]" in txt else ("position" if True else "?")
-            return ("position", atom)
-        if it == "select":
-            return ("atom-id", "atom-id")
-        if it == "enumerate(select)":
-            return ("position", "select[position]")
-        return ("?", it)
-    sa, sc = shape(la), shape(lc)
-    if sa == sc:
-        rep.ok("R4.segment-pairing", "generate_weights~compute_weights", repo.rel("becke", la), f"{sa}")
-    else:
-        rep.violation(
-            "R4.segment-pairing", "becke.BeckeWeights.compute_weights", "segments",
-            f"generate_weights takes segment i = pt_ind[i]:pt_ind[i+1] with atom select[i] ({sa}), compute_weights "
-            f"iterates `for {norm(lc.target)} in {norm(lc.iter)}` and uses the atom number both as segment position and "
-            f"as atom ({sc}): the routes disagree whenever select is not 0..n-1 in order",
-            repo.rel("becke", lc), [f"sibling loop at {repo.rel('becke', la)}"])
+    def analyse(fn):
+        loops = [n for n in ast.walk(fn.node) if isinstance(n, ast.For)
+                 and any(isinstance(x, (ast.Assign, ast.AugAssign)) and
+                         isinstance(x.targets[0] if isinstance(x, ast.Assign) else x.target, ast.Subscript)
+                         and norm((x.targets[0] if isinstance(x, ast.Assign) else x.target).value) == "weights"
+                         for s_ in n.body for x in ast.walk(s_))]
+        if not loops:
+            return None
+        loop = loops[-1]
+        vg = e5.VG(repo, "BeckeWeights", fn.node, inline=False)
+        for p_ in fn.params[1:]:
+            vg.env[p_] = ("sym", p_)
+        _bind_segment_loop(vg, loop)
+        w0 = ("sym", "W0")
+        vg.env["weights"] = w0
+        vg.run(loop.body)
+        w = vg.env.get("weights")
+        if not (isinstance(w, tuple) and w and w[0] == "setitem" and w[1] == w0):
+            raise AnalysisError(f"unrecognised idiom: the sector loop of {fn.qual} does not update one slice of `weights`")
+        key, val = w[2], w[3]
+        return loop, key, val
+    ra, rc = analyse(fa), analyse(fc)
+    if ra is None or rc is None:
+        raise AnalysisError("unrecognised idiom: sector loop updating `weights[...]` not found in both routes")
+    for fn, (loop, key, val) in ((fa, ra), (fc, rc)):
+        pt, sel = ("sym", fn.params[-2] if "pt_ind" not in fn.params else "pt_ind"), ("sym", "select")
+        want_key = ("slice", ("sub", ("sym", "pt_ind"), K), ("sub", ("sym", "pt_ind"), K1), None)
+        atom = ("sub", sel, K)
+        cons = f"becke.{fn.qual.split('.', 1)[1] if fn.qual.startswith('becke.') else fn.qual}"
+        okk = key == want_key
+        oka = contains(val, atom) and not contains(val, ("sub", sel, K1))
+        # the atom must not be taken from the position (column K instead of column select[K])
+        col_k = any(contains(val, ("sub", x, ("tuple", (("slice", None, None, None), K)))) for x in _subterms(val))
+        if okk and oka and not col_k:
+            rep.ok("R4.segment-pairing", f"{fn.qual}", repo.rel("becke", loop),
+                   "iteration K updates weights[pt_ind[K]:pt_ind[K+1]] with atom select[K]")
+        else:
+            rep.violation(
+                "R4.segment-pairing", fn.qual if fn.qual.startswith("becke.") else "becke." + fn.qual, "segments",
+                f"iteration K of `for {norm(loop.target)} in {norm(loop.iter)[:50]}` updates weights[{e5.show(key, 70)}] with "
+                f"{e5.show(val, 110)}: it must update exactly pt_ind[K]:pt_ind[K+1] with the cell function of atom "
+                f"select[K] (the segment position and the atom number are different things whenever select is not "
+                f"0..n-1 in order)", repo.rel("becke", loop))
+
+
+def _subterms(t):
+    if isinstance(t, tuple):
+        yield t
+        for x in t:
+            yield from _subterms(x)
 
 
 def rule_r5(rep, repo):
